@@ -169,6 +169,9 @@ def stages(tier, rng, only=None):
            Stage("wider_projections", "Trace_Dataset", datarun.run_session,
                  lambda: wider_sessions(rng, 60 if tier == "quick" else 600), _nt_step, datarun.init,
                  post=datarun.flatten, chunk=200),
+           Stage("sessions_as_behaviours", "Trace_DatasetSeq", datarun.run_session,
+                 lambda: random_sessions(rng, 150 if tier == "quick" else 2000) + path2_sessions(g3[::40], 3), lambda r: True,
+                 datarun.init, post=datarun.as_behaviours, chunk=500),
            Stage("rankings", "Trace_Dataset", datarun.run_ranking, lambda: ranking_cases(tier, rng),
                  lambda r: len(r["obs"]["rk"]) >= 2, datarun.init)]
     out += extras_common.c16_stages(tier, rng)      # specified behaviour outside the listed properties (drift only)
